@@ -128,7 +128,7 @@ def make_case(rng, i):
     out = []
     for idx, st in enumerate(hist):
         for l in marks.get(idx, []):
-            out.append({"op": "add_listener", "providers": [l]})
+            out.append({"op": "add_listener", "providers": [l], "via": rng.choice(["listener", "listener", "observer"])})
         if rng.random() < 0.12 and (early or late):
             # re-attach an already attached listener: must not duplicate its calls
             already = early + [l for k_, ls in marks.items() if k_ <= idx for l in ls]
